@@ -130,7 +130,7 @@ Definition dec_scc_text_align (v : json) : res scc_align :=
               if text_eqb l (T "left") then Ok AlLeft else if text_eqb l (T "center") then Ok AlCenter
               else if text_eqb l (T "right") then Ok AlRight else if text_eqb l (T "auto") then Ok AlAuto
               else Raise EValue
-  | _ => Raise EAttribute                               (* no attribute 'lower' *)
+  | _ => Raise EValue                                   (* not a str: no label is equal to it *)
   end.
 
 (* stl/config.py _decode_start_tc; the two SMPTE patterns are used with re.fullmatch and the drop-frame pattern's
@@ -275,7 +275,9 @@ Definition dec_color (v : json) : res (option rgba) :=
   | _ => Raise EValue
   end.
 
-(* ---- general.log_level and general.document_lang have no decoders; they are interpreted where tt.convert uses them *)
+(* ---- general.log_level and general.document_lang: config.py _decode_log_level / _decode_document_lang let None and
+   any str through as they are and raise ValueError on anything else; the str is interpreted where tt.convert uses it *)
+Definition dec_str_or_null (v : json) : res json := match v with JNull | JStr _ => Ok v | _ => Raise EValue end.
 (* logging._checkLevel (LOGGER.setLevel): int (bool included) as is; a str must be a registered level name *)
 Definition check_level (v : json) : res Z :=
   match v with
@@ -302,11 +304,11 @@ Definition default_vtt : vtt_cfg := Build_vtt_cfg false false true.
 Definition default_lcd : lcd_cfg := Build_lcd_cfg 10 false None None.
 Definition default_general : json * bool * json := (JStr (T "INFO"), true, JNull).
 
-(* GeneralConfiguration: log_level and document_lang are kept as given, progress_bar goes through decode_bool *)
+(* GeneralConfiguration: log_level and document_lang are kept as given when None or a str, progress_bar goes through decode_bool *)
 Definition parse_general (d : list (text * json)) : res (json * bool * json) :=
-  do ll <- field d "log_level" (fun v => Ok v) (fst (fst default_general));
+  do ll <- field d "log_level" dec_str_or_null (fst (fst default_general));
   do pb <- field d "progress_bar" dec_bool (snd (fst default_general));
-  do dl <- field d "document_lang" (fun v => Ok v) (snd default_general);
+  do dl <- field d "document_lang" dec_str_or_null (snd default_general);
   Ok (ll, pb, dl).
 Definition parse_imsc (d : list (text * json)) : res imsc_cfg :=
   do tf <- field d "time_format" dec_time_format (im_time_format default_imsc);
@@ -335,8 +337,8 @@ Definition parse_lcd (d : list (text * json)) : res lcd_cfg :=
   do e <- field d "bg_color" dec_color (lc_bg_color default_lcd);
   Ok (Build_lcd_cfg a b c e).
 
-(* tt.py read_config_from_json: json_data None -> None; json_data.get(name) (AttributeError unless a dict);
-   None -> None; else config_class.parse(section), whose validate() calls section.get (AttributeError unless a dict) *)
+(* tt.py read_config_from_json: json_data None -> None; not a dict -> ValueError; json_data.get(name);
+   None -> None; not a dict -> ValueError; else config_class.parse(section) *)
 Definition read_config {A} (name : string) (parse : list (text * json) -> res A) (data : option json) : res (option A) :=
   match data with
   | None | Some JNull => Ok None
@@ -344,9 +346,9 @@ Definition read_config {A} (name : string) (parse : list (text * json) -> res A)
       match obj_get (T name) l with
       | None | Some JNull => Ok None
       | Some (JObj d) => do c <- parse d; Ok (Some c)
-      | Some _ => Raise EAttribute
+      | Some _ => Raise EValue                          (* the section is not a dict *)
       end
-  | Some _ => Raise EAttribute
+  | Some _ => Raise EValue                              (* the configuration is not a dict *)
   end.
 
 (* ------------------------------------------------------------------ tt.py: tables *)
@@ -373,7 +375,7 @@ Definition phase_name (p : phase) : string :=
   end%string.
 (* configuration classes: section name -> fields in dataclass order with the name of their decoder ("" = none) *)
 Definition config_table : list (string * list (string * string)) :=
-  [("general", [("log_level", ""); ("progress_bar", "decode_bool"); ("document_lang", "")]);
+  [("general", [("log_level", "_decode_log_level"); ("progress_bar", "decode_bool"); ("document_lang", "_decode_document_lang")]);
    ("imsc_writer", [("time_format", "parse_time_expression_syntax"); ("fps", "FractionDecoder")]);
    ("scc_reader", [("text_align", "TextAlignment.from_value")]);
    ("stl_reader", [("disable_fill_line_gap", "decode_bool"); ("program_start_tc", "_decode_start_tc");
@@ -661,8 +663,8 @@ Definition copt {A} (f : A -> cval) (o : option A) : cval := match o with Some a
    general.document_lang: after setLevel / set_lang; an explicit null there = "leave as is") *)
 Definition decode (k : key) (v : json) : res cval :=
   match k with
-  | KLogLevel => if is_null v then Ok CNone else do z <- check_level v; Ok (CInt z)
-  | KDocumentLang => if is_null v then Ok CNone else do s <- check_lang v; Ok (CText s)
+  | KLogLevel => do x <- dec_str_or_null v; if is_null x then Ok CNone else do z <- check_level x; Ok (CInt z)
+  | KDocumentLang => do x <- dec_str_or_null v; if is_null x then Ok CNone else do s <- check_lang x; Ok (CText s)
   | KTimeFormat => do x <- dec_time_format v; Ok (copt CTfmt x)
   | KFps => do x <- dec_fps v; Ok (copt (fun f => CFrac (fst f) (snd f)) x)
   | KSccTextAlign => do x <- dec_scc_text_align v; Ok (CAlign x)
